@@ -366,6 +366,9 @@ func (c07) Exec(c *sim.Case, env *Env) []sim.Violation {
 		simrt.InstallOrder(c.Order, c.OrderSeed^2, len(c.Tasks), cs)
 		ioStats = simrt.InstallIO(cs, nil)      // every file-system call of the library is a yield point: tasks interleave inside Save and Open
 		simrt.InstallPoints(cs, c.C("preempt")) // and, in some runs, function and loop entries of the library (drawn gaps)
+		// any mutex of the library goes through the scheduler: a task that is preempted inside a critical section must not
+		// make the next task block for real (the baton would never come back); a genuine deadlock is the scheduler's to report
+		simrt.InstallLocks(cs)
 		conc = make([]*c07obs, len(c.Tasks))
 		cstats = make([]*sim.Stats, len(c.Tasks))
 		clogs = make([]*sim.Log, len(c.Tasks))
